@@ -357,6 +357,8 @@ def clause_keywords(toks):
                     continue
                 if w == "USING" and out and out[-1] == "JOIN":
                     continue  # JOIN x USING (..) is part of the join
+                if w == "VALUES" and i > 0 and toks[i - 1].text == "=":
+                    continue  # col=VALUES(col): MySQL's function for the proposed value, not the VALUES clause
                 if w == "SET" and prev in ("UPDATE", "DO") and out and out[-1] == "DO-UPDATE":
                     continue
                 out.append(w)
@@ -461,6 +463,10 @@ def wellformed(kind, d, calls, sql, mon):
     if bad:
         mon.violation("%s:lexical:%s" % (kind, fam), "%s token %r in %r" % (bad[0].kind, bad[0].text[:30], sql[:200]))
         return True
+    for i_, tk in enumerate(toks):
+        if tk.kind == "IDENT" and tk.value == "None" and i_ + 1 < len(toks) and toks[i_ + 1].text == ".":
+            mon.violation("%s:none-as-qualifier:%s" % (kind, fam), "a column is qualified with the name \"None\" (a missing alias written out): %r (calls %s)" % (sql[:240], calls))
+            return True
     b = balanced(toks)
     if b:
         mon.violation("%s:unbalanced:%s" % (kind, fam), "%s in %r" % (b, sql[:200]))
